@@ -50,7 +50,7 @@ Inductive c20_case :=
    (then only "model accepts => Go accepts" is required) *)
 | VerifyCase (t : hash_table) (chal uri method user pass hint hdr : bytes) (go_accepts strict_only : bool)
 (* one call through a real client against the scripted origin *)
-| ExchangeCase (t : hash_table) (replayable : bool) (first : wire_request) (status : N) (chal rbody user pass cnonce : bytes)
+| ExchangeCase (t : hash_table) (replayable : bool) (fault : option bool) (first : wire_request) (status : N) (chal rbody user pass cnonce : bytes)
                (obs_wire : list wire_request) (e : obs_err).
 
 Definition chal_fields (c : challenge) : list bytes :=
@@ -93,13 +93,15 @@ Definition c20_check (c : c20_case) : bool :=
           if strict_only then implb m go else Bool.eqb m go
       | inr _ => false
       end
-  | ExchangeCase t rp first status chal rbody user pass cnonce obs e =>
+  | ExchangeCase t rp fault first status chal rbody user pass cnonce obs e =>
       let rsp := mkResp false status chal rbody in
-      list_eqb wire_eqb (digest_exchange (H_tab t) rp first rsp user pass cnonce) obs &&
-      match digest_middleware (H_tab t) rp first rsp user pass cnonce, e with
-      | MwErr x, ODigest y => derr_eqb x y
-      | MwErr _, _ => false
-      | _, ONone => true
-      | _, _ => false
+      list_eqb wire_eqb (digest_exchange_f (H_tab t) fault rp first rsp user pass cnonce) obs &&
+      match digest_middleware (H_tab t) rp first rsp user pass cnonce, fault, e with
+      | MwErr x, _, ODigest y => derr_eqb x y
+      | MwErr _, _, _ => false
+      | Resent _, Some false, OOther => true      (* the transport's error reaches the caller *)
+      | Resent _, Some false, _ => false
+      | _, _, ONone => true
+      | _, _, _ => false
       end
   end.
